@@ -18,7 +18,7 @@ impl AnyTree {
     #[verifier::external_body]
     pub fn clear_active_memtable(&self, Tracked(w): Tracked<&mut World>)
         requires old(w).recovering, old(w).trees.dom().contains(self.id@),
-                 discard_ok(old(w).trees[self.id@]), // [C02:replayed-data-discarded-only-if-already-in-tables] [C04:replayed-data-discarded-only-if-already-in-tables] [C10:replayed-data-discarded-only-if-already-in-tables]
+                 discard_ok(old(w).trees[self.id@]), // [C02:replayed-data-discarded-only-if-already-in-tables] [C03:replayed-data-discarded-only-if-already-in-tables] [C04:replayed-data-discarded-only-if-already-in-tables] [C10:replayed-data-discarded-only-if-already-in-tables]
         ensures *final(w) == (World { trees: old(w).trees.insert(self.id@, TreeG { applied: Seq::empty(), mem_max: None, ..old(w).trees[self.id@] }), discarded: old(w).discarded.push(self.id@), ..*old(w) }),
     { unimplemented!() }
     // lsm-tree AbstractTree::rotate_memtable: seals the active memtable if it is not empty
